@@ -424,6 +424,7 @@ async def throttle_e2e(loop, ctx):
             trace = []
             bad = None
             crossed = False
+            conns = {}
             for stepn in range(rnd.randint(8, 22)):
                 gap = rnd.choice([1.25, 1.25, 1.25, 3.5, 3.5, 58.5, 61.5, 121.5])
                 await asyncio.sleep(gap)
@@ -477,37 +478,54 @@ async def throttle_e2e(loop, ctx):
                         task_.cancel()
                     out = bytes(cw.buf).decode("latin-1")
                     got = "AUTHENTICATED" if connected else ("REFUSED" if "oo many" in out else "REJECTED")
-                elif proto == "imap":
-                    c = S.IMAPClient(FakeServer(), "n", a, 5, asyncio.StreamReader(), cw)
-                    si = c.subprocess_intf
+                else:
+                    # a handler of its own per attempt, or -- what a guessing client does -- the next attempt on a connection
+                    # that is still open: another LOGIN, or (POP3) just another PASS after the USER given once
+                    old = conns.get((proto, a)) if rnd.random() < 0.6 else None
+                    if old is not None and (old["cw"].closed or old["gone"]):
+                        old = None
+                    if old is not None:
+                        counts["e2e_attempts_on_a_used_connection"] += 1
+                        cn = old
+                    else:
+                        cw_ = MemWriter("c", loop)
+                        if proto == "imap":
+                            h_ = S.IMAPClient(FakeServer(), "n", a, 5, asyncio.StreamReader(), cw_)
+                        else:
+                            h_ = P.POP3Client(FakeServer(), "p", a, 6, asyncio.StreamReader(), cw_)
+                        cn = {"h": h_, "si": h_.subprocess_intf, "cw": cw_, "user": None, "gone": False, "connected": []}
 
-                    async def rec(user, connected=connected):
-                        connected.append(user.username)
+                        async def rec(user, cn=cn):
+                            cn["connected"].append(user.username)
 
-                    si.get_and_connect_subprocess = rec
+                        cn["si"].get_and_connect_subprocess = rec
+                        conns[(proto, a)] = cn
+                    si, cw = cn["si"], cn["cw"]
+                    cn["connected"].clear()
+                    before_ = len(cw.buf)
                     try:
-                        await si.message(('x LOGIN %s "%s"' % (u, PW if ok else "nope")).encode())
+                        if proto == "imap":
+                            keep = await si.message(('x LOGIN %s "%s"' % (u, PW if ok else "nope")).encode())
+                        else:
+                            keep = True
+                            if cn["user"] != u or rnd.random() < 0.3:
+                                keep = await si.message(("USER " + u).encode())
+                                cn["user"] = u
+                            else:
+                                counts["e2e_pop3_pass_without_new_user"] += 1
+                            if keep is not False:
+                                keep = await si.message(("PASS " + (PW if ok else "nope")).encode())
+                        if keep is False:
+                            cn["gone"] = True
                     except Exception as e:  # the real loops answer BAD / hang up; what matters here is the count
                         counts["e2e_login_raised"] += 1
                         cw.buf += f"[raised {type(e).__name__}]".encode()
-                    out = bytes(cw.buf).decode("latin-1")
-                    got = "AUTHENTICATED" if connected else ("REFUSED" if "Too many" in out else "REJECTED")
-                else:
-                    pc = P.POP3Client(FakeServer(), "p", a, 6, asyncio.StreamReader(), cw)
-                    si = pc.subprocess_intf
-
-                    async def rec2(user, connected=connected):
-                        connected.append(user.username)
-
-                    si.get_and_connect_subprocess = rec2
-                    try:
-                        await si.message(("USER " + u).encode())
-                        await si.message(("PASS " + (PW if ok else "nope")).encode())
-                    except Exception as e:
-                        counts["e2e_login_raised"] += 1
-                        cw.buf += f"[raised {type(e).__name__}]".encode()
-                    out = bytes(cw.buf).decode("latin-1")
-                    got = "AUTHENTICATED" if connected else ("REFUSED" if "too many" in out else "REJECTED")
+                        cn["gone"] = True
+                    out = bytes(cw.buf[before_:]).decode("latin-1")
+                    connected = list(cn["connected"])
+                    if connected:
+                        cn["gone"] = True  # (an authenticated connection is no longer one to guess on)
+                    got = "AUTHENTICATED" if connected else ("REFUSED" if ("oo many" in out) else "REJECTED")
                 counts["e2e_attempts"] += 1
                 counts["e2e:" + exp] += 1
                 trace.append([round(t - 1000, 2), u, a, "right" if ok else "wrong", proto, exp, got])
